@@ -1,6 +1,6 @@
 import FlytModel.Generated.IR
 import FlytModel.Expected.IR
-/-! The translation of `BaseNode_GetBatchErrorHandling` from the CURRENT source is, term for term, the IR the refinement theorems are about. -/
+/-! The translation of `BaseNode_GetBatchErrorHandling` from the CURRENT source is, term for term, the expected IR. -/
 namespace Flyt.Tie
 theorem BaseNode_GetBatchErrorHandling : Flyt.Generated.IR.BaseNode_GetBatchErrorHandling = Flyt.Expected.IR.BaseNode_GetBatchErrorHandling := rfl
 end Flyt.Tie
